@@ -10,7 +10,9 @@ GEN_FILES = ["Gen_types.v"]
 RULE = ("pairs of lint-clean blackbox-free circuits (<= 9 nodes each, all gate types, constants): identical, restructured at dump level "
         "(De Morgan, operand splitting, inserted buffers, double inversion), one-gate mutants (type change, operand change), unrelated, and "
         "self-miters (c1 omitted / empty), circuits without (shared) outputs (nothing compared: sat constant 0); startpoints/endpoints: default, explicit empty (= default), every kind of non-empty subset of "
-        "the shared ones incl. a single endpoint and internal nodes as endpoints; sets and lists; plus a rejection stream (blackboxes, "
+        "the shared ones incl. a single endpoint and internal nodes as endpoints; passed as set, frozenset, list or tuple, built once per case "
+        "and handed to two calls (the same pair again, the swapped pair, or the self-miter), with a snapshot of the collections before and "
+        "after each call (a call that changes the caller's collection fails the oracle); plus a rejection stream (blackboxes, "
         "names missing in one circuit, node names sat / dif_x / c0_x that clash, duplicate endpoints); non-trivial = accepted miter with "
         "at least one gate per copy; distinct = canonical case hash")
 EXPLANATION = ("miter model written through the API model and proved to have the stated semantics (all accepted calls); model tied to tx.miter by "
@@ -102,14 +104,14 @@ def pick(rng, pool, what):
     pool = sorted(pool)
     r = rng.random()
     if r < 0.3 or not pool:
-        return None if rng.random() < 0.85 else {"as": rng.choice(["set", "list"]), "v": []}
+        return None if rng.random() < 0.85 else {"as": rng.choice(["set", "list", "tuple", "frozenset"]), "v": []}
     if r < 0.5:
         v = [rng.choice(pool)]
     elif r < 0.7:
         v = pool
     else:
         v = rng.sample(pool, rng.randint(1, len(pool)))
-    return {"as": "set" if rng.random() < 0.8 else "list", "v": v}
+    return {"as": rng.choice(["set", "set", "set", "set", "list", "list", "frozenset", "tuple"]), "v": v}
 
 
 def gen_pair(rng):
@@ -143,6 +145,19 @@ def gen_pair(rng):
             for n in c["nodes"]:
                 n[2] = False
         rel = "no-endpoints:" + rel
+    asym = False
+    if c1 is not None and c1["nodes"] and rng.random() < 0.15:
+        # an observation output on one side only: a node that is an output in one circuit and an internal wire of the same name
+        # in the other must NOT be compared by default
+        side, oth = (c0, c1) if rng.random() < 0.6 else (c1, c0)
+        on = {n[0]: n for n in oth["nodes"]}
+        cand = [n for n in side["nodes"] if n[1] != "input" and n[0] in on and not on[n[0]][2]]
+        if cand:
+            n = rng.choice(cand)
+            n[2] = True
+            on[n[0]][2] = False
+            asym = True
+            rel = "asym-outputs:" + rel
     other = c1 if c1 and c1["nodes"] else c0
     sp0 = {n[0] for n in c0["nodes"] if n[1] == "input"}
     sp1 = {n[0] for n in other["nodes"] if n[1] == "input"}
@@ -154,7 +169,9 @@ def gen_pair(rng):
         E = pick(rng, ep0 & ep1, "E")
     else:
         E = pick(rng, shared_nodes, "E")         # any shared node may be compared, also internal ones
-    return {"c0": c0, "c1": c1, "S": S, "E": E, "rel": rel}
+    if asym and rng.random() < 0.8:
+        E = None
+    return {"c0": c0, "c1": c1, "S": S, "E": E, "rel": rel, "second": rng.choice(["same", "same", "swap", "self"])}
 
 
 def gen_reject(rng):
@@ -200,7 +217,7 @@ def gen_reject(rng):
 
 
 def generate(rng, tier):
-    n = 130 if tier == "quick" else 1200
+    n = 100 if tier == "quick" else 900
     return [gen_pair(rng) if rng.random() < 0.85 else gen_reject(rng) for _ in range(n)]
 
 
@@ -216,11 +233,16 @@ def mutate_case(rng, case):
 
 
 # ---------------------------------------------------------------- implementation driver
+KINDS = {"set": set, "frozenset": frozenset, "list": list, "tuple": tuple}
+
+
 def _arg(x):
-    if x is None:
-        return None, None
-    coll = set(x["v"]) if x["as"] == "set" else list(x["v"])
-    return coll, list(coll)           # the collection and its iteration order
+    """the caller's collection, built ONCE per case and handed to every call of the case"""
+    return None if x is None else KINDS[x["as"]](x["v"])
+
+
+def _snap(coll):
+    return None if coll is None else list(coll)
 
 
 def impl(case):
@@ -229,55 +251,76 @@ def impl(case):
         return {"skip": True}
     c0 = lib.build_circuit(case["c0"])
     c1 = lib.build_circuit(case["c1"]) if case["c1"] is not None else None
-    S, s_order = _arg(case["S"])
-    E, e_order = _arg(case["E"])
-    before = (lib.dump_circuit(c0), lib.dump_circuit(c1) if c1 is not None else None)
-    obs = {"S": s_order, "E": e_order}
-    try:
-        m = cg.tx.miter(c0, c1, startpoints=S, endpoints=E)
-        obs["out"] = lib.dump_circuit(m)
-    except Exception as e:  # noqa: BLE001
-        obs["exc"] = type(e).__name__
-    after = (lib.dump_circuit(c0), lib.dump_circuit(c1) if c1 is not None else None)
-    if before != after:
-        obs["mutated_argument"] = True
-    return obs
+    S, E = _arg(case["S"]), _arg(case["E"])
+    second = case.get("second", "same")
+    pairs = [(case["c0"], case["c1"], c0, c1)]
+    if second == "swap" and c1 is not None and case["c1"]["nodes"]:
+        pairs.append((case["c1"], case["c0"], c1, c0))
+    elif second == "self":
+        pairs.append((case["c0"], None, c0, None))
+    else:
+        pairs.append(pairs[0])
+    calls = []
+    for d0, d1, a, b in pairs:
+        before = (lib.dump_circuit(a), lib.dump_circuit(b) if b is not None else None)
+        obs = {"c0": d0, "c1": d1, "S": _snap(S), "E": _snap(E)}        # content and iteration order at call time
+        try:
+            m = cg.tx.miter(a, b, startpoints=S, endpoints=E)
+            obs["out"] = lib.dump_circuit(m)
+        except Exception as e:  # noqa: BLE001
+            obs["exc"] = type(e).__name__
+        obs["S_after"], obs["E_after"] = _snap(S), _snap(E)
+        if before != (lib.dump_circuit(a), lib.dump_circuit(b) if b is not None else None):
+            obs["mutated_argument"] = True
+        calls.append(obs)
+    return {"calls": calls}
 
 
 EXN = {"ValueError", "KeyError", "IndexError", "NotImplementedError", "StopIteration"}
 
 
+def _copt(x):
+    return "None" if x is None else "(Some %s)" % csl(x)
+
+
 def to_coq(case, obs):
     if obs.get("skip"):
         return None
-    c1 = "None" if case["c1"] is None else "(Some %s)" % ccirc(case["c1"])
-    s = "None" if obs["S"] is None else "(Some %s)" % csl(obs["S"])
-    e = "None" if obs["E"] is None else "(Some %s)" % csl(obs["E"])
-    if "out" in obs:
-        r = "(Ok %s)" % ccirc(obs["out"])
-    else:
-        r = "(Raise %s)" % (obs["exc"] if obs["exc"] in EXN else "OtherError")
-    return "CMiter %s %s %s %s %s" % (ccirc(case["c0"]), c1, s, e, r)
+    terms = []
+    for o in obs["calls"]:
+        c1 = "None" if o["c1"] is None else "(Some %s)" % ccirc(o["c1"])
+        r = "(Ok %s)" % ccirc(o["out"]) if "out" in o else "(Raise %s)" % (o["exc"] if o["exc"] in EXN else "OtherError")
+        terms.append("Call %s %s %s %s %s %s %s" % (ccirc(o["c0"]), c1, _copt(o["S"]), _copt(o["E"]), r, _copt(o["S_after"]), _copt(o["E_after"])))
+    return "CMiter [" + ";".join(terms) + "]"
 
 
 def nontrivial(case, obs):
-    return "out" in obs and any(n[1] in lib.GATES for n in case["c0"]["nodes"]) and len(obs["out"]["nodes"]) >= 6
+    o = obs["calls"][0] if obs.get("calls") else {}
+    return "out" in o and any(n[1] in lib.GATES for n in case["c0"]["nodes"]) and len(o["out"]["nodes"]) >= 6
 
 
 def classify(case, obs):
-    out = ["rel:" + case["rel"].split("+")[0].replace("no-endpoints:", ""), "result:" + ("ok" if "out" in obs else obs.get("exc", "?"))]
-    if case["rel"].startswith("no-endpoints:"):
+    if not obs.get("calls"):
+        return ["skip"]
+    o = obs["calls"][0]
+    out = ["rel:" + case["rel"].split("+")[0].replace("no-endpoints:", "").replace("asym-outputs:", ""), "result:" + ("ok" if "out" in o else o.get("exc", "?")),
+           "second-call:" + case.get("second", "same") + ":" + ("ok" if "out" in obs["calls"][-1] else obs["calls"][-1].get("exc", "?"))]
+    if "no-endpoints:" in case["rel"]:
         out.append("no-endpoints")
+    if "asym-outputs:" in case["rel"]:
+        out.append("asym-outputs")
     for k in ("S", "E"):
         x = case[k]
         out.append(f"{k}:" + ("default" if x is None else "empty" if not x["v"] else "single" if len(x["v"]) == 1 else "subset") +
-                   ("" if x is None or x["as"] == "set" else ":list"))
-    if "out" in obs:
-        sat = [n for n in obs["out"]["nodes"] if n[0] == "sat"]
+                   ("" if x is None else ":" + x["as"]))
+    if "out" in o:
+        sat = [n for n in o["out"]["nodes"] if n[0] == "sat"]
         if sat:
             out.append("sat:" + str(sat[0][1]))
-    if obs.get("mutated_argument"):
-        out.append("mutated-argument")
+    if any(c.get("mutated_argument") for c in obs["calls"]):
+        out.append("mutated-circuit-argument")
+    if any(c["S"] != c["S_after"] or c["E"] != c["E_after"] for c in obs["calls"]):
+        out.append("changed-collection-argument")
     return out
 
 
